@@ -1043,6 +1043,10 @@ val load_rows :
 
 val w_load_entities : (edump * nat list) -> w -> w option
 
+val nodupb : nat list -> bool
+
+val alive_okb : w -> bool
+
 val final_state : bool -> w -> z list list -> w
 
 val dumpload_world : z list list -> z list
